@@ -496,6 +496,8 @@ def prod_sig(body, what, target, fst, snd, bounds, pre=()):
         if f[1] not in var or f[2] not in var:
             raise TranslateError("%s: factor index is not a loop variable: %r" % (what, rhs))
     def ext(bt):
+        bt = re.sub(r"^this->", "", bt)
+        bt = re.sub(r"^asImp\(\)\.", "", bt)
         if bt not in bounds:
             raise TranslateError("%s: loop bound %r outside the grammar" % (what, bt))
         return PEXT[bounds[bt]]
@@ -636,27 +638,32 @@ def translate(repo):
     body = one_def(fm, r"leftmultiplyany", "FieldMatrix::leftmultiplyany")[1]
     out.append("def psig_fmLeftmultiplyany : ProdSig :=\n  " + prod_sig(
         body, "FieldMatrix::leftmultiplyany", "C", "M", r"\(\*this\)",
-        {"l": "fstRows", "rows": "sndRows", "ROWS": "sndRows", "cols": "sndCols", "COLS": "sndCols"},
+        {"l": "fstRows", "M.rows()": "fstRows", "M.N()": "fstRows", "rows": "sndRows", "ROWS": "sndRows", "rows()": "sndRows", "N()": "sndRows",
+         "cols": "sndCols", "COLS": "sndCols", "cols()": "sndCols", "M()": "sndCols", "M.cols()": "fstCols", "M.M()": "fstCols"},
         pre=[r"FieldMatrix<K,l,cols>\s*C\s*;"]))
     body = one_def(fm, r"rightmultiply", "FieldMatrix::rightmultiply")[1]
     out.append("def psig_fmRightmultiply : ProdSig :=\n  " + prod_sig(
         body, "FieldMatrix::rightmultiply", r"\(\*this\)", "C", "M",
-        {"rows": "fstRows", "ROWS": "fstRows", "cols": "fstCols", "COLS": "fstCols", "r": "sndRows", "c": "sndCols"},
+        {"rows": "fstRows", "ROWS": "fstRows", "rows()": "fstRows", "N()": "fstRows", "cols": "fstCols", "COLS": "fstCols", "cols()": "fstCols",
+         "M()": "fstCols", "r": "sndRows", "c": "sndCols", "M.rows()": "sndRows", "M.cols()": "sndCols", "M.N()": "sndRows", "M.M()": "sndCols"},
         pre=[r"FieldMatrix<K,rows,cols>\s*C\s*\(\s*\*this\s*\)\s*;"]))
     body = one_def(fm, r"rightmultiplyany", "FieldMatrix::rightmultiplyany")[1]
     out.append("def psig_fmRightmultiplyany : ProdSig :=\n  " + prod_sig(
         body, "FieldMatrix::rightmultiplyany", "C", r"\(\*this\)", "M",
-        {"rows": "fstRows", "ROWS": "fstRows", "cols": "fstCols", "COLS": "fstCols", "l": "sndCols"},
+        {"rows": "fstRows", "ROWS": "fstRows", "rows()": "fstRows", "N()": "fstRows", "cols": "fstCols", "COLS": "fstCols", "cols()": "fstCols",
+         "M()": "fstCols", "l": "sndCols", "M.cols()": "sndCols", "M.M()": "sndCols", "M.rows()": "sndRows", "M.N()": "sndRows"},
         pre=[r"FieldMatrix<K,rows,l>\s*C\s*;"]))
     body = one_def(dm, r"leftmultiply", "DenseMatrix::leftmultiply")[1]
     out.append("def psig_dmLeftmultiply : ProdSig :=\n  " + prod_sig(
         body, "DenseMatrix::leftmultiply", r"\(\*this\)", "M", "C",
-        {"rows()": "sndRows", "N()": "sndRows", "cols()": "sndCols", "M()": "sndCols", "M.rows()": "fstRows", "M.cols()": "fstCols"},
+        {"rows()": "sndRows", "N()": "sndRows", "cols()": "sndCols", "M()": "sndCols", "M.rows()": "fstRows", "M.cols()": "fstCols",
+         "M.N()": "fstRows", "M.M()": "fstCols", "C.rows()": "sndRows", "C.cols()": "sndCols", "C.N()": "sndRows", "C.M()": "sndCols"},
         pre=[r"AutonomousValue<MAT>\s*C\s*\(\s*asImp\(\)\s*\)\s*;"]))
     body = one_def(dm, r"rightmultiply", "DenseMatrix::rightmultiply")[1]
     out.append("def psig_dmRightmultiply : ProdSig :=\n  " + prod_sig(
         body, "DenseMatrix::rightmultiply", r"\(\*this\)", "C", "M",
-        {"rows()": "fstRows", "N()": "fstRows", "cols()": "fstCols", "M()": "fstCols", "M.rows()": "sndRows", "M.cols()": "sndCols"},
+        {"rows()": "fstRows", "N()": "fstRows", "cols()": "fstCols", "M()": "fstCols", "M.rows()": "sndRows", "M.cols()": "sndCols",
+         "M.N()": "sndRows", "M.M()": "sndCols", "C.rows()": "fstRows", "C.cols()": "fstCols", "C.N()": "fstRows", "C.M()": "fstCols"},
         pre=[r"AutonomousValue<MAT>\s*C\s*\(\s*asImp\(\)\s*\)\s*;"]))
     def free_body(src, rx, what):
         ms = list(re.finditer(rx, src))
